@@ -199,7 +199,7 @@ Qed.
 
 Lemma step_inv : forall st o, req_wf o = true -> inv st -> inv (step st o).
 Proof.
-  intros st o Hwf Hinv. destruct o as [kind dg re ignore same snaps tasks | ci i r].
+  intros st o Hwf Hinv. destruct o as [kind dg re ignore same snaps tasks | ci i r | k l]; [| |discriminate].
   - unfold step. destruct (rejected st _) eqn:Hrej; [exact Hinv|].
     cbn [rejected] in Hrej. apply orb_false_elim in Hrej. destruct Hrej as [Hrej _].
     apply orb_false_elim in Hrej. destruct Hrej as [Hchk _]. cbn [req_wf] in Hwf.
@@ -233,7 +233,7 @@ Proof. intros ops Hwf. apply (run_inv ops []); [exact Hwf | split; [constructor 
 
 Theorem rejected_creates_nothing : forall st o, rejected st o = true -> step st o = st.
 Proof.
-  intros st o H. destruct o as [kind dg re ignore same snaps tasks | ci i r]; [|discriminate].
+  intros st o H. destruct o as [kind dg re ignore same snaps tasks | ci i r | k l]; [|discriminate|discriminate].
   unfold step. rewrite H. reflexivity.
 Qed.
 
